@@ -21,6 +21,8 @@ def full_traversal(it, lp):
     seqs = [(r, p, fv, iv) for r, p, fv, iv in lp.carried if isinstance(fv, SeqSym)]
     streams = [(r, p, fv, iv) for r, p, fv, iv in lp.carried if isinstance(fv, Stream)]
     others = [(r, p, fv, iv) for r, p, fv, iv in lp.carried if not isinstance(fv, (SeqSym, Stream))]
+    if len(others) == 1 and not streams and len(seqs) == 1 and isinstance(others[0][2], SliceRef) and isinstance(others[0][3], SliceRef):
+        return _view_traversal(it, lp, seqs[0], others[0])
     if others:
         return None, 'loop carries other state: %s' % [it._leaf_name(lp.frame, r, p) for r, p, _, _ in others]
     if len(seqs) != 1 or len(streams) != 1:
@@ -71,6 +73,65 @@ def full_traversal(it, lp):
     aval = val
     val0 = it.subst_value(val, _rename_seq(it, val, qf.name, q0.name if isinstance(q0, SeqSym) else None))
     return {'root': qr, 'path': qp, 'init': q0, 'fresh': qf, 'ivar': ivar, 'val': val0, 'raw_val': val, 'end': v0.end}, None
+
+
+def _view_traversal(it, lp, seq, view):
+    """FULL-TRAVERSAL written with a shrinking mutable view of the collection: `while let [e, tail @ ..] = rest { …; rest = tail }`
+    (or `split_first_mut`), or peeling from the back (`[front @ .., e]`).  Each iteration rewrites the element it peels off;
+    the loop ends exactly when the view is empty — every element is visited once (front to back, or back to front)."""
+    from .panics import entails
+    from ..terms import mk_not, subst_term
+    (qr, qp, qf, q0), (vr, vp, vf, v0) = seq, view
+    if (v0.root, v0.path) != (qr, qp) or (vf.root, vf.path) != (qr, qp):
+        return None, 'the view does not range over the collection that is modified'
+    n = it.seq_len(q0)
+    if v0.start != ('ic', 0) or v0.end != n:
+        return None, 'the view covers [%s, %s) of the collection, expected all of it' % (term_str(v0.start), term_str(v0.end))
+    fwd = vf.end == v0.end and vf.start != v0.start
+    bwd = vf.start == v0.start and vf.end != v0.end
+    if fwd == bwd:
+        return None, 'the view does not shrink from one side'
+    cur = vf.start if fwd else vf.end
+    visited = cur if fwd else it.isub(cur, ('ic', 1))
+    if len(lp.back_states) != 1:
+        return None, 'body has %d continue paths (conditional control flow inside the traversal)' % len(lp.back_states)
+    bs = lp.back_states[0]
+    g = [(l[0] if l[1] else mk_not(l[0])) for l in bs.guard]
+    nonempty = ('icmp', 'lt', cur, n) if fwd else ('icmp', 'ge', cur, ('ic', 1))
+    dom = [('icmp', 'ge', cur, ('ic', 0)), ('icmp', 'le', cur, n)]
+    if len(g) != 1 or not (entails(set(dom) | {g[0]}, nonempty) and entails(set(dom) | {nonempty}, g[0])):
+        return None, 'an iteration is conditional on %s' % [term_str(c) for c in g]
+    vb = it.read(bs, vr, vp)
+    want = (it.iadd(cur, ('ic', 1)), n) if fwd else (('ic', 0), it.isub(cur, ('ic', 1)))
+    if not (isinstance(vb, SliceRef) and (vb.root, vb.path) == (qr, qp) and NF()(vb.start).equals(NF()(want[0])) and NF()(vb.end).equals(NF()(want[1]))):
+        return None, 'the view does not shrink by exactly the element visited'
+    qb = it.read(bs, qr, qp)
+    if qb == qf:
+        val = it.seq_get(qf, visited, bs)
+    elif isinstance(qb, SeqUpd) and qb.seq == qf and NF()(qb.idx).equals(NF()(visited)):
+        val = qb.val
+    else:
+        return None, 'body does more than rewrite the visited element: %s' % (it.abstract(bs, qb),)
+    j = visited
+    if not fwd:
+        # name the visited position
+        j = it.fresh_sym('ι')
+        val = it.subst_value(val, {visited: j})
+        if cur in set(subterms(it.abstract(None, val))):
+            return None, 'new element depends on the position of the view'
+    if _mentions_seq_elsewhere(val, it, qf.name, j):
+        return None, 'new element depends on other elements'
+    exits = [s_ for ss in lp.exit_states.values() for s_ in ss]
+    if len(exits) != 1:
+        return None, 'loop has %d exits (break/return inside the traversal)' % len(exits)
+    eg = [(l[0] if l[1] else mk_not(l[0])) for l in exits[0].guard]
+    if len(eg) != 1 or not (entails(set(dom) | {eg[0]}, mk_not(nonempty)) and entails(set(dom) | {mk_not(nonempty)}, eg[0])):
+        return None, 'loop exits on %s, expected only when the view is empty' % [term_str(c) for c in eg]
+    if it.read(exits[0], qr, qp) != qf:
+        return None, 'exit path modifies the collection'
+    lp.recognised = 'FULL-TRAVERSAL'
+    val0 = it.subst_value(val, _rename_seq(it, val, qf.name, q0.name if isinstance(q0, SeqSym) else None))
+    return {'root': qr, 'path': qp, 'init': q0, 'fresh': qf, 'ivar': j, 'val': val0, 'raw_val': val, 'end': n}, None
 
 
 def _rename_seq(it, v, old, new):
